@@ -74,6 +74,7 @@ def run_history(rep, case):
         gen = 0
         utypes = sorted({TT[spec['tasks'][n]['type']] for n in names}, key=lambda c: c.__name__)
         keyof = {n: Built(spec).inst(n).cache_key for n in names}
+        shared = Built(spec) if case.get('reuse') else None     # the same task objects across the whole history
 
         def check_state(after):
             b = Built(spec)
@@ -122,7 +123,7 @@ def run_history(rep, case):
                 for n in E:
                     val(n)
                 pre = len(events.read_events(ctl))
-                b = Built(spec)
+                b = shared or Built(spec)
                 if case.get('fresh_lab'):
                     lab = mklab()
                 _AUDIT['writes'] = []
@@ -153,7 +154,7 @@ def run_history(rep, case):
                         if cacheable(spec, n):
                             cache[n] = newv[n]
             elif op[0] == 'uncache':
-                b = Built(spec)
+                b = shared or Built(spec)
                 try:
                     lab.uncache_tasks([b.inst(n) for n in op[1]])
                 except BaseException as ex:   # noqa
@@ -195,13 +196,15 @@ def run_shard(rep):
         skinds = ['local', 'pathstr', 'fsspec-local', 'null'] + (['fsspec-memory'] if backend == 'serial' else [])
         case = {'spec': spec, 'ops': gen_history(rng, names, cfg['maxlen'] if backend == 'serial' else 5),
                 'storage': rng.choice(skinds), 'backend': backend, 'max_workers': rng.choice([1, 2, None]),
-                'fresh_lab': rng.random() < 0.3}
+                'fresh_lab': rng.random() < 0.3, 'reuse': rng.random() < 0.5}
         bad = run_history(rep, case)
         nruns = sum(1 for o in case['ops'] if o[0] == 'run')
         rep.case([json.dumps(spec, sort_keys=True), case['ops'], case['storage'], backend],
                  nruns >= 2 and any(o[0] == 'uncache' or (o[0] == 'run' and o[2]) for o in case['ops']))
         rep.seen('storage_x_backend', f"{case['storage']}/{backend}")
         rep.count('histories')
+        if case['reuse']:
+            rep.count('histories_reusing_task_objects')
         rep.count('ops', len(case['ops']))
         seen = set()
         for key, msg in bad:
